@@ -35,6 +35,8 @@ func newMonitor(run int) *monitor {
 type tracker struct {
 	height      uint32 // height the per-height fields belong to
 	decided     bool
+	decidedAtOp bool   // the height was already decided when the current API call began
+	curDesc     string // the current API call
 	commit      *H
 	precommit   *H
 	lockView    int // -1: not locked
@@ -124,7 +126,20 @@ func (m *monitor) timerReset(n *node, h uint32, v byte, d interface{ Nanoseconds
 	}
 	if n.tr != nil {
 		n.tr.effects = append(n.tr.effects, "TRESET")
+		m.tick("C05")
+		if t := n.tr; t.decidedAtOp && t.decided && !strings.HasPrefix(t.curDesc, "R ") && !strings.HasPrefix(t.curDesc, "S ") {
+			m.nhit(n, "C05", "timer-armed-after-decision", fmt.Sprintf("node %d re-armed its timer on [%s] after deciding height %d", n.id, t.curDesc, n.d.BlockIndex))
+		}
 	}
+}
+
+// solicited: the API call delivers a RecoveryRequest or a ChangeView
+func solicited(desc string) bool {
+	f := strings.Fields(desc)
+	if len(f) < 2 || f[0] != "M" {
+		return false
+	}
+	return f[1] == fmt.Sprint(int(dbft.RecoveryRequestType)) || f[1] == fmt.Sprint(int(dbft.ChangeViewType))
 }
 
 func (m *monitor) event(n *node, kind string) {
@@ -222,9 +237,22 @@ func (m *monitor) broadcast(n *node, p *Payload) {
 	if !n.honestValidator() {
 		m.nhit(n, "C13", "watch-only-broadcast", fmt.Sprintf("watch-only node %d broadcast %s", n.id, p.out()))
 	}
+	// C16: a new-transaction notification makes a primary propose or a backup re-arm its timer; it never makes a node ask
+	// for a view change or for recovery state
+	if t.curDesc == "N" {
+		m.tick("C16")
+		if p.T == dbft.ChangeViewType || p.T == dbft.RecoveryRequestType {
+			m.nhit(n, "C16", "view-change-on-notification", fmt.Sprintf("node %d broadcast type %d on a new-transaction notification at (%d,%d)", n.id, p.T, h, d.ViewNumber))
+		}
+	}
 	m.tick("C05")
 	if t.decided && p.T != dbft.RecoveryMessageType {
 		m.nhit(n, "C05", "broadcast-after-decision", fmt.Sprintf("node %d broadcast type %d after deciding height %d", n.id, p.T, h))
+	}
+	// after the decision a recovery message is only a reply: to a received RecoveryRequest (or a ChangeView, which the code
+	// answers the same way)
+	if t.decidedAtOp && t.decided && p.T == dbft.RecoveryMessageType && !solicited(t.curDesc) {
+		m.nhit(n, "C05", "unsolicited-recovery-after-decision", fmt.Sprintf("node %d broadcast a recovery message on [%s] after deciding height %d", n.id, t.curDesc, h))
 	}
 	if m.byz[n.id] { // restarted with forgotten state: counted faulty, the honest-node clauses below do not apply
 		return
@@ -460,7 +488,12 @@ func (m *monitor) processBlock(n *node, b *Block, fail bool) {
 			if counted-valid == early {
 				sig = "early-commit-unverified"
 				if amevOn(n, d.BlockIndex) {
-					sig = "early-commit-unverified/amev"
+					// the code verifies stored commits when it sends its own Commit after its own PreCommit: an
+					// unverified early commit is known (D2) only for a node that never sent a PreCommit
+					sig = "early-commit-unverified/amev/no-own-precommit"
+					if d.MyIndex >= 0 && d.MyIndex < len(d.PreCommitPayloads) && d.PreCommitPayloads[d.MyIndex] != nil {
+						sig = "early-commit-unverified/amev/own-precommit-sent"
+					}
 				}
 			}
 		}
@@ -559,6 +592,8 @@ func (m *monitor) before(n *node, desc string) {
 	t := n.tr
 	t.effects = t.effects[:0]
 	t.viewBefore, t.heightBefore = n.d.ViewNumber, n.d.BlockIndex
+	t.roll(n.d.BlockIndex)
+	t.decidedAtOp, t.curDesc = t.decided, desc
 	t.inadmissible = ""
 	if strings.HasPrefix(desc, "S ") || strings.HasPrefix(desc, "R ") {
 		fmt.Sscanf(desc[2:], "%d", &t.lastStartTS)
